@@ -16,6 +16,7 @@ DRIVERS = {
     'sqf_yylex': {'vm': 'sqf_yylex'},
     'array_ops': {'vm': 'array_ops'},
     'while_loop': {'vm': 'while_loop'},
+    'iteration': {'vm': 'iteration'},
     'config_ops': {'vm': 'config_ops'},
     'waituntil': {'vm': 'waituntil'},
     'operators_total': {'vm': 'operators_total'},
